@@ -217,6 +217,19 @@ let run_actor_gen (legacy : bool) (dedup : bool) (toks : string list) : string =
             else
               match parse_request tok with
               | Some (r, o) ->
+                (* a partial purge failure is defined on the purged keys in ascending order
+                   (the implementation's order is a HashMap's): translate the mask *)
+                let o =
+                  match r, o with
+                  | Model.RPurge, Model.SPartial mask ->
+                    let purged, _ = Model.set_purge (fst !state) in
+                    let keys = List.map fst (sort_pairs purged) in
+                    let removed =
+                      List.filteri (fun i _ -> match List.nth_opt mask i with Some true -> true | _ -> false) keys
+                    in
+                    Model.SPartial (List.map (fun (k, _) -> List.exists (fun k' -> hex_of_n k' = hex_of_n k) removed) purged)
+                  | _ -> o
+                in
                 let x', rep = Model.actor_step legacy dedup !state r o in
                 state := x';
                 (match rep with Model.ROk -> "ok" | Model.RErr -> "err")
